@@ -100,8 +100,16 @@ def _short(detail, n=1500):
     return detail if len(detail) <= n else detail[:n] + '...'
 
 
+class DiscardCase(Exception):
+    """Raised inside a check to discard the case (counted, not judged)."""
+
+
 def repo_frame_signature(exc, prefix='exc'):
     """Signature for an unexpected exception: (type, innermost frame inside the openmdao package)."""
+    if isinstance(exc, ValueError) and 'must not contain infs or NaNs' in str(exc):
+        # a diverging nonlinear iteration handed non-finite values to scipy's LU solve: the model did not converge
+        # (the premise of every model-based property); counted as a discard, whatever check sees it
+        raise DiscardCase('nonfinite: a diverging solve handed non-finite values to the linear solver')
     tb = traceback.extract_tb(exc.__traceback__)
     where = None
     for fr in tb:
@@ -206,6 +214,12 @@ def safe_check(check, case, ctx):
     """Run check(case); harness-side exceptions become harness errors, not violations."""
     try:
         res = check(case)
+    except DiscardCase as d:
+        res = Result()
+        res.discard = str(d).split(':')[0]
+        res.classes = ['discarded']
+        ctx.record(case, res)
+        return res
     except Exception as e:  # the oracle itself crashed: this is a harness defect
         ctx.harness_error(f"{type(e).__name__}: {e}\ncase={_short(case, 800)}\n"
                           + traceback.format_exc()[-2500:])
